@@ -46,6 +46,10 @@ const TEMPLATES: &[(&str, u32, u32)] = &[
     ("hint", 0xffff_f01f, 0xd503_201f),
 ];
 
+pub fn template_word(rng: &mut Rng) -> u32 {
+    gen_word(rng).0
+}
+
 fn gen_word(rng: &mut Rng) -> (u32, &'static str) {
     if rng.chance(1, 8) {
         return (rng.u32(), "random");
